@@ -225,9 +225,34 @@ def cmd_first(cfg):
     }))
 
 
+def cmd_primed(cfg):
+    """Fresh process: a few priming calls first (so that whatever the
+    library caches on first use is created under unusual options), then the
+    probe set."""
+    import sqlparse
+    for api, text, opts in cfg['calls']:
+        old = sys.getrecursionlimit()
+        try:
+            if opts.pop('__low_recursion_limit__', False):
+                sys.setrecursionlimit(150)
+            if api == 'format':
+                sqlparse.format(text, **opts)
+            elif api == 'parse':
+                sqlparse.parse(text)
+            else:
+                sqlparse.split(text)
+        except Exception:
+            pass
+        finally:
+            sys.setrecursionlimit(old)
+    print(json.dumps({'obs': observe_all(sqlparse)}))
+
+
 if __name__ == '__main__':
     try:
-        if sys.argv[1] == 'ref':
+        if sys.argv[1] == 'primed':
+            cmd_primed(json.loads(sys.argv[2]))
+        elif sys.argv[1] == 'ref':
             cmd_ref()
         elif sys.argv[1] == 'first':
             cmd_first(json.loads(sys.argv[2]))
